@@ -6,51 +6,61 @@ Import ListNotations.
 Open Scope string_scope.
 Set Implicit Arguments.
 
-Local Notation rq := (@rd_quat Qc).
-Local Notation r2 := (@rd_v2 Qc).  Local Notation r3 := (@rd_v3 Qc).
-Local Notation rp2 := (@rd_p2 Qc). Local Notation rp3 := (@rd_p3 Qc).
-Local Notation rm2 := (@rd_m2 Qc). Local Notation rm3 := (@rd_m3 Qc).
-Local Notation rs := (@rd_s Qc).
+Section G.
+  Variable F : Type.
+  Variable O : Ops F.
+  Variable T : Trig F.
+  Variable A : Approx F.
+  Variable toNat : F -> nat.
 
-Definition tab_unit (T : Trig Qc) (U : Unit Qc) (sfx : string) : list (string * (list Qc -> val)) := [
-  ("m2_from_angle" ++ sfx, run1 rs (fun t => om2 (m2_from_angle O T U t)));
-  ("basis2_from_angle" ++ sfx, run1 rs (fun t => om2 (basis2_from_angle O T U t)));
-  ("m3_from_angle_x" ++ sfx, run1 rs (fun t => om3 (m3_from_angle_x O T U t)));
-  ("m3_from_angle_y" ++ sfx, run1 rs (fun t => om3 (m3_from_angle_y O T U t)));
-  ("m3_from_angle_z" ++ sfx, run1 rs (fun t => om3 (m3_from_angle_z O T U t)));
-  ("m3_from_axis_angle" ++ sfx, run2 r3 rs (fun a t => om3 (m3_from_axis_angle O T U a t)));
-  ("m4_from_angle_x" ++ sfx, run1 rs (fun t => om4 (m4_from_angle_x O T U t)));
-  ("m4_from_angle_y" ++ sfx, run1 rs (fun t => om4 (m4_from_angle_y O T U t)));
-  ("m4_from_angle_z" ++ sfx, run1 rs (fun t => om4 (m4_from_angle_z O T U t)));
-  ("m4_from_axis_angle" ++ sfx, run2 r3 rs (fun a t => om4 (m4_from_axis_angle O T U a t)));
-  ("basis3_from_angle_x" ++ sfx, run1 rs (fun t => om3 (basis3_from_angle_x O T U t)));
-  ("basis3_from_angle_y" ++ sfx, run1 rs (fun t => om3 (basis3_from_angle_y O T U t)));
-  ("basis3_from_angle_z" ++ sfx, run1 rs (fun t => om3 (basis3_from_angle_z O T U t)));
-  ("basis3_from_axis_angle" ++ sfx, run2 r3 rs (fun a t => om3 (basis3_from_axis_angle O T U a t)));
-  ("quat_from_angle_x" ++ sfx, run1 rs (fun t => oq (quat_from_angle_x O T U t)));
-  ("quat_from_angle_y" ++ sfx, run1 rs (fun t => oq (quat_from_angle_y O T U t)));
-  ("quat_from_angle_z" ++ sfx, run1 rs (fun t => oq (quat_from_angle_z O T U t)));
-  ("quat_from_axis_angle" ++ sfx, run2 r3 rs (fun a t => oq (quat_from_axis_angle O T U a t)))
+
+  Local Notation rq := (@rd_quat F).
+  Local Notation r2 := (@rd_v2 F).    Local Notation r3 := (@rd_v3 F).
+  Local Notation rp2 := (@rd_p2 F).   Local Notation rp3 := (@rd_p3 F).
+  Local Notation rm2 := (@rd_m2 F).   Local Notation rm3 := (@rd_m3 F).
+  Local Notation rs := (@rd_s F).
+
+Definition tab_unit (T : Trig F) (U : Unit F) (sfx : string) : list (string * (list F -> gval F)) := [
+  ("m2_from_angle" ++ sfx, grun1 rs (fun t => gm2 (m2_from_angle O T U t)));
+  ("basis2_from_angle" ++ sfx, grun1 rs (fun t => gm2 (basis2_from_angle O T U t)));
+  ("m3_from_angle_x" ++ sfx, grun1 rs (fun t => gm3 (m3_from_angle_x O T U t)));
+  ("m3_from_angle_y" ++ sfx, grun1 rs (fun t => gm3 (m3_from_angle_y O T U t)));
+  ("m3_from_angle_z" ++ sfx, grun1 rs (fun t => gm3 (m3_from_angle_z O T U t)));
+  ("m3_from_axis_angle" ++ sfx, grun2 r3 rs (fun a t => gm3 (m3_from_axis_angle O T U a t)));
+  ("m4_from_angle_x" ++ sfx, grun1 rs (fun t => gm4 (m4_from_angle_x O T U t)));
+  ("m4_from_angle_y" ++ sfx, grun1 rs (fun t => gm4 (m4_from_angle_y O T U t)));
+  ("m4_from_angle_z" ++ sfx, grun1 rs (fun t => gm4 (m4_from_angle_z O T U t)));
+  ("m4_from_axis_angle" ++ sfx, grun2 r3 rs (fun a t => gm4 (m4_from_axis_angle O T U a t)));
+  ("basis3_from_angle_x" ++ sfx, grun1 rs (fun t => gm3 (basis3_from_angle_x O T U t)));
+  ("basis3_from_angle_y" ++ sfx, grun1 rs (fun t => gm3 (basis3_from_angle_y O T U t)));
+  ("basis3_from_angle_z" ++ sfx, grun1 rs (fun t => gm3 (basis3_from_angle_z O T U t)));
+  ("basis3_from_axis_angle" ++ sfx, grun2 r3 rs (fun a t => gm3 (basis3_from_axis_angle O T U a t)));
+  ("quat_from_angle_x" ++ sfx, grun1 rs (fun t => gq (quat_from_angle_x O T U t)));
+  ("quat_from_angle_y" ++ sfx, grun1 rs (fun t => gq (quat_from_angle_y O T U t)));
+  ("quat_from_angle_z" ++ sfx, grun1 rs (fun t => gq (quat_from_angle_z O T U t)));
+  ("quat_from_axis_angle" ++ sfx, grun2 r3 rs (fun a t => gq (quat_from_axis_angle O T U a t)))
 ].
 
-Definition tab_c06 (o : Orc) : list (string * (list Qc -> val)) :=
-  let T := TrigQ o in
+Definition gtab_c06 : list (string * (list F -> gval F)) :=
   tab_unit T (URad O) "" ++ tab_unit T (UDeg O) "_deg" ++ [
-  ("basis2_mul", run2 rm2 rm2 (fun a b => om2 (basis2_mul O a b)));
-  ("basis2_invert", run1 rm2 (fun a => pn om2 (basis2_invert O a)));
-  ("basis2_rotate_vector", run2 rm2 r2 (fun a v => ov2 (basis2_rotate_vector O a v)));
-  ("basis2_rotate_point", run2 rm2 rp2 (fun a p => op2 (basis2_rotate_point O a p)));
-  ("basis2_one", run0 (S:=Qc) (om2 (basis2_one O)));
-  ("basis3_mul", run2 rm3 rm3 (fun a b => om3 (basis3_mul O a b)));
-  ("basis3_invert", run1 rm3 (fun a => pn om3 (basis3_invert O a)));
-  ("basis3_rotate_vector", run2 rm3 r3 (fun a v => ov3 (basis3_rotate_vector O a v)));
-  ("basis3_rotate_point", run2 rm3 rp3 (fun a p => op3 (basis3_rotate_point O a p)));
-  ("basis3_one", run0 (S:=Qc) (om3 (basis3_one O)));
-  ("q_invert", run1 rq (fun q => oq (quat_invert O q)));
-  ("q_rotate_point", run2 rq rp3 (fun q p => op3 (quat_rotate_point O q p)));
-  ("q_rotate_vector", run2 rq r3 (fun q v => ov3 (quat_rotate_vector O q v)));
-  ("q_mul", run2 rq rq (fun a b => oq (quat_mul O a b)))
+  ("basis2_mul", grun2 rm2 rm2 (fun a b => gm2 (basis2_mul O a b)));
+  ("basis2_invert", grun1 rm2 (fun a => gpn gm2 (basis2_invert O a)));
+  ("basis2_rotate_vector", grun2 rm2 r2 (fun a v => gv2 (basis2_rotate_vector O a v)));
+  ("basis2_rotate_point", grun2 rm2 rp2 (fun a p => gp2 (basis2_rotate_point O a p)));
+  ("basis2_one", grun0 (S:=F) (gm2 (basis2_one O)));
+  ("basis3_mul", grun2 rm3 rm3 (fun a b => gm3 (basis3_mul O a b)));
+  ("basis3_invert", grun1 rm3 (fun a => gpn gm3 (basis3_invert O a)));
+  ("basis3_rotate_vector", grun2 rm3 r3 (fun a v => gv3 (basis3_rotate_vector O a v)));
+  ("basis3_rotate_point", grun2 rm3 rp3 (fun a p => gp3 (basis3_rotate_point O a p)));
+  ("basis3_one", grun0 (S:=F) (gm3 (basis3_one O)));
+  ("q_invert", grun1 rq (fun q => gq (quat_invert O q)));
+  ("q_rotate_point", grun2 rq rp3 (fun q p => gp3 (quat_rotate_point O q p)));
+  ("q_rotate_vector", grun2 rq r3 (fun q v => gv3 (quat_rotate_vector O q v)));
+  ("q_mul", grun2 rq rq (fun a b => gq (quat_mul O a b)))
 ].
+End G.
+
+Definition tab_c06 (o : Orc) : list (string * (list Qc -> val)) := qtab (gtab_c06 OpsQ (TrigQ o)).
 
 Definition run_c06 : runner := fun f o args =>
   match dispatch (tab_c06 o) f with Some h => h args | None => VBad end.
